@@ -871,7 +871,7 @@ def r11_failures_are_offered(a, tier):
         'offered to set_furthest_exception(), so a rule\'s failure must be offered whether its body just failed or the failure was replayed '
         'from the memo. call() and rule_call(), interpreted TOGETHER on a stand-in engine (scripted body, action, memo): when the rule fails '
         'afresh and when memo() hands back a remembered failure, set_furthest_exception() receives that very failure before call() is left, '
-        'the caller is put back to the position before the rule, and the failure is what call() raises',
+        'and the failure is what call() raises',
         floor=2,
     )
     CTX = 'tatsu.contexts.context.ParseContext'
@@ -900,14 +900,15 @@ def r11_failures_are_offered(a, tier):
             out = r
         except Unsupported as e:
             raise AnalysisError(f'C04.R11: cannot interpret call() / rule_call(): {e}') from e
-        ok = out is failure and any(x is failure for x in offered) and gotos[-1:] == [3]
+        # (where the cursor stands afterwards is not part of this obligation: the frames the failing rule opened are undone by their owners, and the
+        #  `goto(pos)` of call()'s handler is redundant with that - removing it is a behaviour-preserving edit)
+        ok = out is failure and any(x is failure for x in offered)
         rep.add({'scenario': what, 'raises_the_failure': out is failure, 'offered_as_furthest': any(x is failure for x in offered), 'caller_put_back_to': gotos[-1:], 'ok': ok})
         if not any(x is failure for x in offered):
             rep.fail(fn.qualname, f'failure-not-offered:{"replay" if memo_hit else "fresh"}', f'when {what}, call() is left without the failure having been offered to '
                      f'set_furthest_exception(): with the memo on, the parse reports another (earlier or later-recorded) error than with the memo off', fn.loc)
         elif not ok:
-            rep.fail(fn.qualname, f'failure-path:{"replay" if memo_hit else "fresh"}', f'when {what}, call() raises {out.cls_name if out is not None else None} and puts the caller to '
-                     f'{gotos[-1:]} (required: the failure itself, position 3)', fn.loc)
+            rep.fail(fn.qualname, f'failure-path:{"replay" if memo_hit else "fresh"}', f'when {what}, call() raises {out.cls_name if out is not None else None}, not the failure itself', fn.loc)
     return rep
 
 
